@@ -41,7 +41,14 @@ RULE = (
     "argument validation; s) enumerate_support for every (V,max_iters,eos,batch_size,cache). d) greedy CTC: "
     "every frame-label sequence over C in {1,2,3} labels, T in 0..4, every in_lens 0..T (one ragged batch, its "
     "reverse, and singles) and in_lens=None, every blank_idx in [-C,C-1], batch_first, is_probs, function and "
-    "module. Cases are distinct by construction (cartesian products of duplicate-free generators; explorer "
+    "module; the frames at or beyond in_lens hold, in turn, the row's own finite frames, all -inf (zeros for "
+    "probabilities), nan, +inf (one class / every class) and huge finite values. IGNORED POSITIONS ARE ARBITRARY: "
+    "in a/p the score vectors at out-of-vocabulary token positions, after the first eos and past the packed "
+    "lengths are overwritten per case by one of {nothing, all -inf, nan, +inf} (multiplicative hash of the case "
+    "index, seed-independent); in b/c/s the table LM emits finite garbage/-inf/nan/+inf for every history that "
+    "already contains eos. GUARDS on every library call: argument tensors unchanged afterwards; tensors returned "
+    "by the previous call through the same function/module object (modules are reused across the unit) unchanged "
+    "after the next unrelated call. Cases are distinct by construction (cartesian products of duplicate-free generators; explorer "
     "leaves are distinct choice lists); non-trivial = at least one in-vocabulary token is scored (a,p), the "
     "path has >= 2 tokens or ends early (b,c), the collapsed output differs from the raw labels (d)."
 )
@@ -52,6 +59,9 @@ ASSUMPTIONS = [
     "packed input: eos is documented as ignored; the reference for packed input ignores eos, and cases where this "
     "differs from the first-eos definition are counted (counter packed_eos_inside_valid) but not judged",
     "contents of y beyond y_lens / of greedy paths beyond out_lens are undefined and not compared",
+    "scores at positions the property declares ignored (OOV token, after the first eos, frames >= in_lens, LM "
+    "outputs for finished paths) may be anything including nan/+-inf; valid positions are always finite",
+    "each a/p case gets ONE kind of garbage in its ignored positions (rotating), not all four",
     "max_iters=None (unbounded walks) is not explored; TorchScript/CUDA variants not explored",
 ]
 BUDGET_S = {"quick": 240, "thorough": 2400}
@@ -97,6 +107,81 @@ def _prod(xs):
     for x in xs:
         p *= x
     return p
+
+
+NINF, NAN, PINF = float("-inf"), float("nan"), float("inf")
+FILL_KINDS = ("finite", "neg-inf", "nan", "pos-inf")
+
+
+def _fill_kind(ci, off=0):
+    """Which garbage goes into the ignored positions of case number ci: a multiplicative hash, so the
+    kind is unrelated to the digits of the enumerated content; the same for every seed."""
+    return FILL_KINDS[((((ci + 1) * 2654435761) >> 9) + off) % 4]
+
+
+def _poison_row(row, kind, alt):
+    """Overwrites one score vector (last dimension) in place: all -inf / nan / +inf, or (alt) only class 0."""
+    if kind == "neg-inf":
+        row[...] = NINF
+    elif kind == "nan":
+        if alt:
+            row[..., 0] = NAN
+        else:
+            row[...] = NAN
+    elif kind == "pos-inf":
+        if alt:
+            row[..., 0] = PINF
+        else:
+            row[...] = PINF
+
+
+def _flat_tensors(x, out=None):
+    out = [] if out is None else out
+    if isinstance(x, torch.Tensor):
+        out.append(x)
+    elif isinstance(x, dict):
+        for v in x.values():
+            _flat_tensors(v, out)
+    elif isinstance(x, (tuple, list)):  # includes PackedSequence (a namedtuple)
+        for v in x:
+            _flat_tensors(v, out)
+    return out
+
+
+def _bits_equal(a, b):
+    if a.shape != b.shape or a.dtype != b.dtype:
+        return False
+    if a.is_floating_point():
+        return bool(((a == b) | (a.isnan() & b.isnan())).all())
+    return torch.equal(a, b)
+
+
+class _Guard:
+    """Two generic guards around every call into the library:
+    (1) the caller's argument tensors are unchanged (nan == nan) after the call;
+    (2) the tensors returned by the previous call through the same function / module object are
+        unchanged (nan == nan) after this (unrelated) call - no aliasing with internal buffers."""
+
+    def __init__(self, ctx):
+        self.ctx = ctx
+        self.kept = {}
+
+    def __call__(self, key, api, case, fn, *args):
+        snaps = [(t, t.clone()) for t in _flat_tensors(args)]
+        out = fn()
+        for i, (t, c) in enumerate(snaps):
+            if not _bits_equal(t, c):
+                self.ctx.violation({"api": api, "symptom": "argument-modified"}, case,
+                                   {"argument_tensor": i, "before": c, "after": t})
+        prev = self.kept.get(key)
+        if prev is not None:
+            for i, (t, c) in enumerate(prev):
+                if not _bits_equal(t, c):
+                    self.ctx.violation({"api": api, "symptom": "earlier-result-changed-by-later-call"},
+                                       dict(case, whole_unit=True), {"result_tensor": i, "was": c, "now": t})
+        self.kept[key] = [(t, t.clone()) for t in _flat_tensors(out)]
+        self.ctx.count("guarded_calls")
+        return out
 
 
 class _Tree:
@@ -146,7 +231,7 @@ def _a_units(tier):
                         for dim in (pos, pos - nd):
                             for eos in [None] + list(range(V)):
                                 units.append({"part": "a", "V": V, "N": N, "T": T, "E": E, "layout": layout,
-                                              "dim": dim, "eos": eos, "w": ncontent * 150 + 3000})
+                                              "dim": dim, "eos": eos, "w": ncontent * 330 + 3000})
     return units
 
 
@@ -183,10 +268,17 @@ def _a_unit(ctx, u, tier, seed, only=None):
     lsm = [[[O.log_softmax(L[e, t, b].double().tolist()) for t in range(T)] for b in range(n)] for e in range(E)]
     contents = _a_contents(V, T, n) if only is None else [tuple(tuple(s) for s in only)]
     module = M.SequenceLogProbabilities(dim, eos)
+    guard = _Guard(ctx)
+    uoff = E + 3 * abs(dim) + 5 * (0 if eos is None else eos + 1) + 7 * list(LAYOUTS).index(layout)
+    if only is not None:
+        all_contents = _a_contents(V, T, n)
+        ci0 = all_contents.index(contents[0]) if contents[0] in all_contents else 0
     if u is not None and only is None:
         ctx.sample({"part": "a", "unit": {k: u[k] for k in u if k != "w"}, "contents": len(contents),
                     "example_hyp": contents[len(contents) // 2]})
     for ci, content in enumerate(contents):
+        if only is not None:
+            ci = ci0
         # slice e=1 holds the batch in reversed order (n==2) / the reversed sequence (n==1)
         per_e = [content]
         if E == 2:
@@ -195,7 +287,21 @@ def _a_unit(ctx, u, tier, seed, only=None):
             H = torch.zeros((E, 0, n), dtype=torch.long)
         else:
             H = torch.tensor(per_e, dtype=torch.long).permute(0, 2, 1)  # (E,n,T) -> (E,T,n)
-        hyp, logits = _a_layout(layout, H, L)
+        # positions the property says are ignored (out-of-vocabulary token, after the first eos) hold
+        # arbitrary scores - also non-finite ones
+        kind = _fill_kind(ci, uoff)
+        Lc = L
+        if kind != "finite":
+            Lc = L.clone()
+            for e in range(E):
+                for b in range(n):
+                    seq = per_e[e][b]
+                    stop = O.first_eos_len(seq, eos)
+                    for t in range(T):
+                        if t >= stop or not (0 <= seq[t] < V):
+                            _poison_row(Lc[e, t, b], kind, (t + b + e) % 2 == 1)
+                            ctx.count("ignored_positions_made_non_finite")
+        hyp, logits = _a_layout(layout, H, Lc)
         if ci % 2:
             hyp, logits = hyp.contiguous(), logits.contiguous()
         exp = [[O.seq_log_prob(lsm[e][b], per_e[e][b], eos) for b in range(n)] for e in range(E)]
@@ -204,12 +310,13 @@ def _a_unit(ctx, u, tier, seed, only=None):
         ctx.case(1, 1 if scored else 0)
         case = {"part": "a", "unit": u, "content": content, "seed": seed, "tier": tier}
         sig0 = {"api": "sequence_log_probs", "input": "tensor", "eos_set": eos is not None,
-                "neg_dim": dim < 0, "hyp_dims": hyp.dim(), "zero_steps": T == 0}
+                "neg_dim": dim < 0, "hyp_dims": hyp.dim(), "zero_steps": T == 0, "ignored_positions": kind}
         try:
             if ci % 4 < 2:
-                out = F.sequence_log_probs(logits, hyp, dim, eos)
+                out = guard("F", "sequence_log_probs", case,
+                            lambda: F.sequence_log_probs(logits, hyp, dim, eos), logits, hyp)
             else:
-                out = module(logits, hyp)
+                out = guard("M", "sequence_log_probs", case, lambda: module(logits, hyp), logits, hyp)
         except Exception as e:  # a legal input must not raise
             ctx.violation(dict(sig0, symptom="raises", type=type(e).__name__), case, {"error": str(e)[-300:]})
             continue
@@ -246,7 +353,7 @@ def _p_units(tier):
                         if eos is not None and full and N == 2 and tier == "quick" and T == 2 and eos > 0:
                             continue
                         units.append({"part": "p", "V": V, "N": N, "T": T, "dim": dim, "eos": eos, "full": full,
-                                      "w": ncontent * (T ** N) * 2 * 200 + 3000})
+                                      "w": ncontent * (T ** N) * 2 * 300 + 3000})
     return units
 
 
@@ -272,6 +379,8 @@ def _p_unit(ctx, u, tier, seed, only=None):
     contents = _p_contents(V, T, N, full)
     patterns = list(itertools.product(range(1, T + 1), repeat=N))
     module = M.SequenceLogProbabilities(dim, eos)
+    guard = _Guard(ctx)
+    uoff = 3 * abs(dim) + (dim < 0) + 5 * (0 if eos is None else eos + 1)
     if only is not None:
         contents = [tuple(tuple(s) for s in only["content"])]
         patterns = [tuple(only["lens"])]
@@ -286,22 +395,40 @@ def _p_unit(ctx, u, tier, seed, only=None):
                 continue
             if only is not None and only["enforce_sorted"] != enforce_sorted:
                 continue
-            if enforce_sorted == "reversed-ties":
-                # a legal hand-built packing whose sorted_indices break length ties in reverse batch order
-                # (e.g. a collate function that sorts ascending and flips); round-trips through pad_packed_sequence
-                if len(set(lens)) == len(lens):
-                    continue
-                perm = sorted(range(N), key=lambda b: (-lens[b], -b))
-                sidx = torch.tensor(perm)
-                base = torch.nn.utils.rnn.pack_padded_sequence(
-                    L[:, sidx], torch.tensor([lens[b] for b in perm]), enforce_sorted=True)
-                uidx = torch.empty(N, dtype=torch.long)
-                uidx[sidx] = torch.arange(N)
-                ps = torch.nn.utils.rnn.PackedSequence(base.data, base.batch_sizes, sidx, uidx)
-            else:
-                ps = torch.nn.utils.rnn.pack_padded_sequence(L, torch.tensor(lens), enforce_sorted=enforce_sorted)
+            if enforce_sorted == "reversed-ties" and len(set(lens)) == len(lens):
+                continue
+
+            def pack(Lx, lens=lens, enforce_sorted=enforce_sorted):
+                if enforce_sorted == "reversed-ties":
+                    # a legal hand-built packing whose sorted_indices break length ties in reverse batch order
+                    # (e.g. a collate function that sorts ascending and flips); round-trips through
+                    # pad_packed_sequence
+                    perm = sorted(range(N), key=lambda b: (-lens[b], -b))
+                    sidx = torch.tensor(perm)
+                    base = torch.nn.utils.rnn.pack_padded_sequence(
+                        Lx[:, sidx], torch.tensor([lens[b] for b in perm]), enforce_sorted=True)
+                    uidx = torch.empty(N, dtype=torch.long)
+                    uidx[sidx] = torch.arange(N)
+                    return torch.nn.utils.rnn.PackedSequence(base.data, base.batch_sizes, sidx, uidx)
+                return torch.nn.utils.rnn.pack_padded_sequence(Lx, torch.tensor(lens), enforce_sorted=enforce_sorted)
+
+            ps_plain = pack(L)
             for content in contents:
                 ci += 1
+                if only is not None:
+                    ci = only.get("ci", ci)
+                kind = _fill_kind(ci, uoff)
+                ps = ps_plain
+                if kind != "finite":
+                    # scores at out-of-vocabulary token positions (and in the padding past the lengths, which
+                    # packing drops) are arbitrary, also non-finite
+                    Lc = L.clone()
+                    for b in range(N):
+                        for t in range(T):
+                            if t >= lens[b] or not (0 <= content[b][t] < V):
+                                _poison_row(Lc[t, b], kind, (t + b) % 2 == 1)
+                                ctx.count("ignored_positions_made_non_finite")
+                    ps = pack(Lc)
                 H = torch.tensor(content, dtype=torch.long)  # (N,T)
                 hyp = H if dim in (1, -1) else H.t()
                 if ci % 2:
@@ -314,14 +441,15 @@ def _p_unit(ctx, u, tier, seed, only=None):
                 scored = any(0 <= tok < V for b in range(N) for tok in content[b][: lens[b]])
                 ctx.case(1, 1 if scored else 0)
                 case = {"part": "p", "unit": u, "seed": seed, "tier": tier,
-                        "sub": {"content": content, "lens": lens, "enforce_sorted": enforce_sorted}}
+                        "sub": {"content": content, "lens": lens, "enforce_sorted": enforce_sorted, "ci": ci}}
                 sig0 = {"api": "sequence_log_probs", "input": "packed", "eos_set": eos is not None,
-                        "neg_dim": dim < 0, "sorted": enforce_sorted}
+                        "neg_dim": dim < 0, "sorted": enforce_sorted, "ignored_positions": kind}
                 try:
                     if ci % 4 < 2:
-                        out = F.sequence_log_probs(ps, hyp, dim, eos)
+                        out = guard("F", "sequence_log_probs", case,
+                                    lambda: F.sequence_log_probs(ps, hyp, dim, eos), ps, hyp)
                     else:
-                        out = module(ps, hyp)
+                        out = guard("M", "sequence_log_probs", case, lambda: module(ps, hyp), ps, hyp)
                 except Exception as e:
                     ctx.violation(dict(sig0, symptom="raises", type=type(e).__name__), case,
                                   {"error": str(e)[-300:]})
@@ -339,7 +467,7 @@ def _p_unit(ctx, u, tier, seed, only=None):
 # =========================================================================================
 # distribution.log_prob with the work-arounds for F17/F18 (each failure is still reported)
 # =========================================================================================
-def _dist_log_prob(ctx, d, value, case, T, eosn, bset):
+def _dist_log_prob(ctx, d, value, case, T, eosn, bset, guard=None):
     """Calls d.log_prob(value) with the distribution's own (default) validation.  Every raise is
     recorded as a violation with a precise signature; then the matching work-around is applied
     (pad short samples with eos / give the sample exactly one sample dimension) so that the score
@@ -350,7 +478,10 @@ def _dist_log_prob(ctx, d, value, case, T, eosn, bset):
     lp = None
     for _ in range(4):
         try:
-            lp = d.log_prob(v)
+            if guard is None:
+                lp = d.log_prob(v)
+            else:
+                lp = guard("log_prob", API_LP, case, lambda: d.log_prob(v), v, d.initial_state)
             break
         except Exception as e:  # noqa: BLE001
             msg = _msg_class(e)
@@ -428,10 +559,12 @@ def _b_unit(ctx, u, tier, seed, only=None):
     V, T, eos, bs = u["V"], u["max_iters"], u["eos"], u["batch_size"]
     N = bs or 1
     eosn = None if eos is None else eos % V
-    lm = TableLM(V, T, seed)
+    lm = TableLM(V, T, seed, poison_eos=eosn)
     rows = [(b + 1) % 2 for b in range(N)]
     init = {"row": torch.tensor(rows)}
     tree = _Tree(["b", V, T, eos, bs])
+    guard = _Guard(ctx)
+    gcase = {"part": "b", "unit": u, "seed": seed, "tier": tier}
     try:
         walk = M.RandomWalk(lm, eos)
         dist = SequentialLanguageModelDistribution(walk, None, dict(init), max_iters=T)
@@ -443,7 +576,8 @@ def _b_unit(ctx, u, tier, seed, only=None):
 
     def run(ch):
         with ScriptedRandom(ch) as sr:
-            out = walk(dict(init), bs, T)
+            state = dict(init)
+            out = guard("walk", "RandomWalk", dict(gcase, choices=ch.prefix), lambda: walk(state, bs, T), state)
         return out, sr.calls
 
     if only is not None:
@@ -530,7 +664,8 @@ def _b_unit(ctx, u, tier, seed, only=None):
         # ---- score 2: the definition applied to the model's outputs --------------------------
         try:
             full = lm(clean[:-1], dict(init))
-            slp = F.sequence_log_probs(full, clean, 0, eosn)
+            slp = guard("F", "sequence_log_probs", case,
+                        lambda: F.sequence_log_probs(full, clean, 0, eosn), full, clean)
             if tuple(slp.shape) != (N,):
                 raise AssertionError(f"shape {tuple(slp.shape)}")
             slp = slp.tolist()
@@ -546,7 +681,7 @@ def _b_unit(ctx, u, tier, seed, only=None):
                            "eos_set": eos is not None}, case, {"paths": paths, "observed": slp, "chain_rule": chain})
         # ---- score 3: the wrapper's log_prob of the path ------------------------------------
         value = clean.t() if bs is not None else clean[:, 0]
-        dlp, wa = _dist_log_prob(ctx, dist, value, case, T, eosn, False)
+        dlp, wa = _dist_log_prob(ctx, dist, value, case, T, eosn, False, guard)
         _lm_protocol(ctx, lm, API_LP, case)
         if dlp is None:
             agree = False
@@ -614,7 +749,7 @@ def _c_units(tier):
 
 
 def _make_dist(V, T, eos, bs, cache, seed):
-    lm = TableLM(V, T, seed)
+    lm = TableLM(V, T, seed, poison_eos=eos)
     rows = [(b + 1) % 2 for b in range(bs or 1)] if bs else [0]
     init = {"row": torch.tensor(rows)} if bs else None
     walk = M.RandomWalk(lm, eos)
@@ -631,11 +766,14 @@ def _c_unit(ctx, u, tier, seed, only=None):
     lm, rows, d = _make_dist(V, T, eos, bs, cache, seed)
     tree = _Tree(["c", V, T, eos, bs, shape, cache])
     comp = set(O.complete_paths(V, T, eos))
+    guard = _Guard(ctx)
+    gcase = {"part": "c", "unit": u, "seed": seed, "tier": tier}
 
     def run(ch):
         d.clear_cache()
         with ScriptedRandom(ch) as sr:
-            s = d.sample(torch.Size(shape))
+            s = guard("sample", API_SAMPLE, dict(gcase, choices=ch.prefix),
+                      lambda: d.sample(torch.Size(shape)), d.initial_state)
         return s, sr.calls
 
     if only is not None:
@@ -707,7 +845,7 @@ def _c_unit(ctx, u, tier, seed, only=None):
             continue
         # ---- support.check, with the wrapper's own constraint object ------------------------
         try:
-            ok = d.support.check(s)
+            ok = guard("check", "TokenSequenceConstraint.check", case, lambda: d.support.check(s), s)
             if tuple(ok.shape) != want_prefix or not bool(ok.all()):
                 ctx.violation({"api": "TokenSequenceConstraint.check", "symptom": "sample-rejected",
                                "eos_set": eos is not None, "shorter_than_max_iters": S < T}, case,
@@ -727,7 +865,7 @@ def _c_unit(ctx, u, tier, seed, only=None):
                           {"sample": s, "log_prob_of_draws": math.log(ch.prob), "chain_rule_total": total})
 
         def compare(tag, value, want):
-            lp, wa = _dist_log_prob(ctx, d, value, dict(case, step=tag), T, eos, bset)
+            lp, wa = _dist_log_prob(ctx, d, value, dict(case, step=tag), T, eos, bset, guard)
             _lm_protocol(ctx, lm, API_LP, case)
             if lp is None:
                 return False
@@ -796,11 +934,12 @@ def _s_unit(ctx, u, tier, seed, only=None):
     padded = {tuple(list(p) + [eos] * (T - len(p))): p for p in comp}
     K = len(comp)
     ctx.case(1, 1)
+    guard = _Guard(ctx)
     try:
         if not d.has_enumerate_support:
             raise AssertionError("has_enumerate_support is False although max_iters is set")
-        sup = d.enumerate_support()
-        sup_ne = d.enumerate_support(expand=False)
+        sup = guard("sup", API_SUP, case, lambda: d.enumerate_support(), d.initial_state)
+        sup_ne = guard("sup", API_SUP, case, lambda: d.enumerate_support(expand=False), d.initial_state)
     except Exception as e:  # noqa: BLE001
         ctx.violation(dict(sig0, symptom="raises", type=type(e).__name__), case, {"error": str(e)[-300:]})
         return
@@ -819,7 +958,7 @@ def _s_unit(ctx, u, tier, seed, only=None):
                       {"listed": listed, "expected": sorted(padded)})
         return
     try:
-        ok = d.support.check(sup)
+        ok = guard("check", "TokenSequenceConstraint.check", case, lambda: d.support.check(sup), sup)
         if tuple(ok.shape) != want_shape[:-1] or not bool(ok.all()):
             ctx.violation({"api": "TokenSequenceConstraint.check", "symptom": "support-element-rejected",
                            "eos_set": eos is not None}, case, {"check": ok})
@@ -832,7 +971,7 @@ def _s_unit(ctx, u, tier, seed, only=None):
         tot = sum(math.exp(chain[k][b]) for k in range(K))
         if not O.close(tot, 1.0, 1e-9):
             raise HarnessError(f"oracle support mass {tot}")
-    lp, wa = _dist_log_prob(ctx, d, sup, dict(case, step="whole-support"), T, eos, bset)
+    lp, wa = _dist_log_prob(ctx, d, sup, dict(case, step="whole-support"), T, eos, bset, guard)
     _lm_protocol(ctx, lm, API_LP, case)
     ok_all = lp is not None
     if lp is not None:
@@ -853,7 +992,7 @@ def _s_unit(ctx, u, tier, seed, only=None):
         for k in range(K):
             ctx.case(1, 1)
             v = sup[k: k + 1]
-            lpk, wa = _dist_log_prob(ctx, d, v, dict(case, step="one-element", k=k), T, eos, bset)
+            lpk, wa = _dist_log_prob(ctx, d, v, dict(case, step="one-element", k=k), T, eos, bset, guard)
             if lpk is None:
                 ok_all = False
                 continue
@@ -878,7 +1017,7 @@ def _d_units(tier):
         for T in range(0, 5):
             for blank in range(-C, C):
                 units.append({"part": "d", "C": C, "T": T, "blank_idx": blank,
-                              "w": (C ** T) * (T + 1) * 4 * 260 + 20000})
+                              "w": (C ** T) * (T + 1) * 4 * 700 + 30000})
     return units
 
 
@@ -893,20 +1032,70 @@ def _d_logits(rng, labels, C):
     return rows
 
 
-def _d_eval(ctx, u, case, logits_tnc, rows, in_lens_given, blank, batch_first, is_probs, use_module, tag):
+D_FILLS = {  # what the frames at or beyond in_lens[n] hold (they are not valid and must not matter)
+    False: ("own-frames", "neg-inf", "nan", "pos-inf", "huge"),  # un-normalised log scores
+    True: ("own-frames", "zero", "nan", "pos-inf", "huge"),  # probabilities
+}
+
+
+def _d_fill(x, rows, fill):
+    """x: (T,R,C).  Overwrites, for every row, the frames t >= in_len."""
+    if fill == "own-frames":
+        return x
+    x = x.clone()
+    T = x.size(0)
+    for r, (_, in_len) in enumerate(rows):
+        if in_len >= T:
+            continue
+        pad = x[in_len:, r]  # (T - in_len, C) view
+        if fill == "neg-inf":
+            pad[...] = NINF  # pad_sequence(..., padding_value=-inf)
+        elif fill == "zero":
+            pad[...] = 0.0
+        elif fill == "huge":
+            pad[...] = 1e30
+            pad[:, r % x.size(2)] = -1e30 if r % 3 == 0 else 3e38
+        elif fill == "nan":
+            if r % 2:
+                pad[...] = NAN
+            else:
+                pad[:, r % x.size(2)] = NAN  # one class only (an uninitialised buffer)
+        elif fill == "pos-inf":
+            if r % 2:
+                pad[...] = PINF
+            else:
+                pad[:, r % x.size(2)] = PINF
+    return x
+
+
+def _d_eval(ctx, u, case, logits_tnc, rows, in_lens_given, blank, batch_first, is_probs, use_module, tag,
+            guard=None, mods=None, fill="own-frames"):
     """rows: list of (labels, in_len); logits_tnc: (T,R,C) float32 tensor of frame scores."""
     T, R, C = logits_tnc.shape
     x = logits_tnc.softmax(2) if is_probs else logits_tnc
+    if in_lens_given:
+        x = _d_fill(x, rows, fill)
     frames = x.double().tolist()  # [t][r][c] exactly what the implementation sees
     inp = x.transpose(0, 1).contiguous() if batch_first else x
     in_lens = torch.tensor([r[1] for r in rows], dtype=torch.long) if in_lens_given else None
     sig0 = {"api": "ctc_greedy_search", "is_probs": is_probs, "batch_first": batch_first,
-            "in_lens_given": in_lens_given, "neg_blank": blank < 0, "batching": tag}
+            "in_lens_given": in_lens_given, "neg_blank": blank < 0, "batching": tag, "frames_past_in_lens": fill}
+    guard = guard if guard is not None else _Guard(ctx)
+    gcase = dict(case, batching=tag, batch_first=batch_first, is_probs=is_probs, in_lens_given=in_lens_given,
+                 module=use_module, fill=fill)
     try:
         if use_module:
-            mx, paths, out_lens = M.CTCGreedySearch(blank, batch_first, is_probs)(inp, in_lens)
+            mod = None if mods is None else mods.get((batch_first, is_probs))
+            if mod is None:
+                mod = M.CTCGreedySearch(blank, batch_first, is_probs)
+                if mods is not None:
+                    mods[(batch_first, is_probs)] = mod
+            mx, paths, out_lens = guard(("M", batch_first, is_probs), "ctc_greedy_search", gcase,
+                                        lambda: mod(inp, in_lens), inp, in_lens)
         else:
-            mx, paths, out_lens = F.ctc_greedy_search(inp, in_lens, blank, batch_first, is_probs)
+            mx, paths, out_lens = guard("F", "ctc_greedy_search", gcase,
+                                        lambda: F.ctc_greedy_search(inp, in_lens, blank, batch_first, is_probs),
+                                        inp, in_lens)
     except Exception as e:  # noqa: BLE001
         ctx.case(R)
         ctx.violation(dict(sig0, symptom="raises", type=type(e).__name__), case, {"error": str(e)[-300:]})
@@ -925,8 +1114,7 @@ def _d_eval(ctx, u, case, logits_tnc, rows, in_lens_given, blank, batch_first, i
         want = O.ctc_collapse(labels, L, bnorm)
         score = O.ctc_score([frames[t][r] for t in range(T)], labels, L, is_probs)
         ctx.case(1, 1 if want != list(labels[:L]) else 0)
-        rcase = dict(case, row={"labels": labels, "in_len": in_len}, batching=tag, batch_first=batch_first,
-                     is_probs=is_probs, in_lens_given=in_lens_given, module=use_module)
+        rcase = dict(gcase, row={"labels": labels, "in_len": in_len})
         if ol[r] != len(want) or pl[r][: len(want)] != want:
             sym = "wrong-path"
             if len(want) > 0 and labels[0] == bnorm and pl[r][: ol[r]][:1] == [bnorm]:
@@ -953,17 +1141,22 @@ def _d_unit(ctx, u, tier, seed, only=None):
     ctx.sample({"part": "d", "unit": {k: u[k] for k in u if k != "w"}, "rows_in_ragged_batch": R,
                 "example_row": {"labels": rows[R // 2][0], "in_len": rows[R // 2][1]}})
     k = 0
+    guard = _Guard(ctx)
+    mods = {}  # one module object per configuration, reused across all the unrelated calls of the unit
+    rev = list(reversed(rows))
     for batch_first, is_probs, in_lens_given in itertools.product((False, True), (False, True), (True, False)):
         k += 1
-        _d_eval(ctx, u, case, full, rows, in_lens_given, blank, batch_first, is_probs, k % 2 == 0, "ragged-batch")
-        rev = list(reversed(rows))
-        _d_eval(ctx, u, case, full.flip(1), rev, in_lens_given, blank, batch_first, is_probs, k % 2 == 1,
-                "ragged-batch-reversed")
+        fills = D_FILLS[is_probs] if (in_lens_given and T > 0) else ("own-frames",)
+        for fi, fill in enumerate(fills):
+            _d_eval(ctx, u, case, full, rows, in_lens_given, blank, batch_first, is_probs, (k + fi) % 2 == 0,
+                    "ragged-batch", guard, mods, fill)
+            _d_eval(ctx, u, case, full.flip(1), rev, in_lens_given, blank, batch_first, is_probs, (k + fi) % 2 == 1,
+                    "ragged-batch-reversed", guard, mods, fill)
         if in_lens_given:
             step = 1 if (tier == "thorough" or R <= 60) else 5
             for r in range(k % step, R, step):
                 _d_eval(ctx, u, case, full[:, r: r + 1], rows[r: r + 1], True, blank, batch_first, is_probs,
-                        (r + k) % 2 == 0, "single")
+                        (r + k) % 2 == 0, "single", guard, mods, fills[(r + k) % len(fills)])
 
 
 # =========================================================================================
@@ -1001,7 +1194,9 @@ def replay(case):
     u = case["unit"]
     seed, tier = case.get("seed", 0), case.get("tier", "quick")
     part = case["part"]
-    if part == "a":
+    if case.get("whole_unit"):  # an aliasing violation needs the earlier calls of the unit as well
+        _RUN[part](ctx, u, tier, seed)
+    elif part == "a":
         _a_unit(ctx, u, tier, seed, only=case.get("content"))
     elif part == "p":
         _p_unit(ctx, u, tier, seed, only=case.get("sub"))
